@@ -59,6 +59,7 @@ type BatchOut struct {
 	Samples     []*eng.Result    `json:"samples,omitempty"`
 	WallS       float64          `json:"wall_s"`
 	ClassCounts map[string]int   `json:"class_counts,omitempty"`
+	RunDigests  []string         `json:"run_digests,omitempty"`
 }
 
 // SeedOf derives the seed of run i.
@@ -134,6 +135,9 @@ func runBatch(spec *props.Spec, j *Job) *BatchOut {
 		out.FaultPoints += res.FaultPoints
 		out.FakeNanos += res.FakeNanos
 		all.Add(res.Digest)
+		if os.Getenv("VERIF_DEBUG_DIGESTS") != "" {
+			out.RunDigests = append(out.RunDigests, strconv.Itoa(i)+":"+strconv.FormatUint(res.Digest, 16)+":"+strconv.FormatInt(res.Steps, 10))
+		}
 		if res.Nontrivial {
 			seen[res.Digest] = struct{}{}
 		}
